@@ -218,6 +218,13 @@ func (c *verifCRound) work(w *verifCWorker, nops int) {
 		case 3:
 			c.remove(key)
 		case 4:
+			// half of the expiries through the entry's PRODUCTION timer function (fired now, runs on
+			// the timer goroutine concurrently with the workers), half through the shim's copy of it
+			if w.rnd.Bool() {
+				if _, armed := verifC10FireTimer(c.tc, key); armed {
+					continue
+				}
+			}
 			verifC10Expire(c.tc, key)
 		default:
 			time.Sleep(verifConcTTL/2 + time.Duration(w.rnd.Intn(int(verifConcTTL))))
